@@ -15,6 +15,7 @@ def deductive(tier="quick", seed=0):
         from contracts import tasks_clifford as TC
 
         tasks += TC.tasks(C)
+        tasks += TC.shrink_grow_tasks(C, tier)
     except ImportError:
         pass
     d = run_tasks(tasks)
@@ -35,5 +36,9 @@ def deductive(tier="quick", seed=0):
     d.trusted_base += [
         "[T-stab] n independent commuting Pauli generators stabilise a unique state; U g U^dagger stabilises U psi",
         "[T-meas] Aaronson-Gottesman Z-measurement update (quant-ph/0406196 sec. III)",
+        "[T-basis] in a valid tableau, if no stabilizer row has X on qubit q then some destabilizer row has (rows form a symplectic "
+        "basis; linear algebra not derived here) - input assumption of remove_qubit's task; makes `omit` well defined",
+        "[T-discard] measuring qubit q in Z and dropping it leaves, on the other qubits, the generators restricted to them with the "
+        "sign flipped where they carried Z on a qubit left in |1>",
     ]
     return d
